@@ -512,6 +512,24 @@ func (n *Node) Short(max int) string {
 // subtrees are ignored.
 type Differ struct {
 	Mask map[string]bool
+	// ZeroEntryAbsent makes a map entry that exists on one side only equal to
+	// "absent" when its value is a numeric zero, nil or an empty list/map
+	// (m[k] = 0 versus k not in m).  Empty structs (sets) are NOT zero entries.
+	ZeroEntryAbsent bool
+}
+
+// zeroEntry tells whether n is a numeric zero, nil or an empty collection.
+func (n *Node) zeroEntry() bool {
+	if n == nil {
+		return true
+	}
+	switch n.Kind {
+	case KLeaf:
+		return n.Leaf == "0" || n.Leaf == "nil" || strings.HasPrefix(n.Leaf, "0#")
+	case KList, KMap:
+		return len(n.Kids) == 0
+	}
+	return false
 }
 
 // Diff is one difference between two trees.
@@ -737,13 +755,13 @@ func (d *Differ) diff(a, b *Node, path string, out *[]Diff, limit int) {
 				j++
 			case j >= len(b.Kids) || (i < len(a.Kids) && a.Names[i] < b.Names[j]):
 				p := path + "[" + a.Names[i] + "]"
-				if !d.masked(p) {
+				if !d.masked(p) && !(d.ZeroEntryAbsent && a.Kids[i].zeroEntry()) {
 					*out = append(*out, Diff{Path: p, A: a.Kids[i].Short(200), B: "<absent>"})
 				}
 				i++
 			default:
 				p := path + "[" + b.Names[j] + "]"
-				if !d.masked(p) {
+				if !d.masked(p) && !(d.ZeroEntryAbsent && b.Kids[j].zeroEntry()) {
 					*out = append(*out, Diff{Path: p, A: "<absent>", B: b.Kids[j].Short(200)})
 				}
 				j++
